@@ -93,7 +93,9 @@ def _sha(*parts):
 
 
 def _run_compile(cmd, out):
-    tmp = out + ".tmp%d" % os.getpid()
+    import threading
+    import uuid
+    tmp = out + ".tmp%d.%d.%s" % (os.getpid(), threading.get_ident(), uuid.uuid4().hex[:8])
     full = cmd + ["-o", tmp]
     r = subprocess.run(full, stdout=subprocess.PIPE, stderr=subprocess.STDOUT, text=True)
     if r.returncode != 0:
